@@ -267,7 +267,23 @@ func (ex *Explorer) Run() {
 			}
 		}()
 	}
+	stopProgress := make(chan struct{})
+	go func() {
+		tk := time.NewTicker(15 * time.Second)
+		defer tk.Stop()
+		for {
+			select {
+			case <-stopProgress:
+				return
+			case <-tk.C:
+				ex.mu.Lock()
+				fmt.Fprintf(os.Stderr, "gosmt: ... %s: %d paths, frontier %d, %d findings, %.0fs\n", ex.Fn.Name(), ex.Paths, len(ex.frontier), len(ex.Findings), time.Since(t0).Seconds())
+				ex.mu.Unlock()
+			}
+		}
+	}()
 	wg.Wait()
+	close(stopProgress)
 	for _, w := range workers {
 		w.z3.close()
 		w.cvc.close()
